@@ -514,6 +514,11 @@ func ruleNonEmpty(c *Ctx, r *RuleResult, calleeName string) {
 // ruleBytewise: the labels of the automaton are bytes and words are byte strings. Iterating a word
 // with `range` over a string, or converting it to or from runes, decodes UTF-8: a byte >= 0x80 then
 // becomes U+FFFD or part of a multi-byte rune and the word looked up is not the word that was added.
+func isByteSlice(t types.Type) bool {
+	sl, ok := t.Underlying().(*types.Slice)
+	return ok && isByte(sl.Elem())
+}
+
 func ruleBytewise(c *Ctx, r *RuleResult, pkgRel string) {
 	pkg := c.Pkg(pkgRel)
 	n := 0
@@ -523,6 +528,23 @@ func ruleBytewise(c *Ctx, r *RuleResult, pkgRel string) {
 		}
 		n++
 		bad := 0
+		// only functions that walk the automaton's labels are concerned (a printer that ranges over
+		// some text of its own is not)
+		walksLabels := false
+		for _, b := range fn.Blocks {
+			for _, in := range b.Instrs {
+				if fa, ok := in.(*ssa.FieldAddr); ok {
+					if st, ok := fa.X.Type().Underlying().(*types.Pointer).Elem().Underlying().(*types.Struct); ok && isByteSlice(st.Field(fa.Field).Type()) {
+						walksLabels = true
+					}
+				}
+			}
+		}
+		if !walksLabels {
+			r.inst("%s: does not read the label slices", c.short(fn))
+			r.oblig(true)
+			continue
+		}
 		for _, b := range fn.Blocks {
 			for _, in := range b.Instrs {
 				switch x := in.(type) {
